@@ -71,6 +71,14 @@ void SoPlexBase<R>::_optimize(volatile bool* interrupt)
          ++_unscaleCalls;
       }
    }
+   // persistent scaling was switched off after the LP had been scaled: remove the scaling, otherwise the LP stays scaled
+   // and the stored solution is unscaled through a scaler pointer that may be null by now
+   else if(_realLP->isScaled())
+   {
+      _solver.unscaleLPandReloadBasis();
+      _isRealLPScaled = false;
+      ++_unscaleCalls;
+   }
 
    // remember that last solve was in floating-point
    _lastSolveMode = SOLVEMODE_REAL;
